@@ -467,8 +467,12 @@ PROGRESS = re.compile(r"Success: (\d+), Failed: (\d+), Faulted: (\d+), Total: (\
 class RunResult:
     pass
 
-def execute(w, keep=False, timeout=30):
+def execute(w, keep=False, timeout=None):
     """materialise the world, run the tool on it, return a RunResult with the request/observation tokens"""
+    if timeout is None:
+        # a run of a generated world takes milliseconds; the worlds with a hundred thousand pieces take some 13 s on an idle
+        # machine (most of it the harness printing its log) and get a budget that a loaded machine does not exhaust
+        timeout = getattr(w, "time_limit", 30)
     base = tempfile.mkdtemp(prefix="tbv-", dir=SHM)
     try:
         root, tpaths = materialise(w, base)
@@ -716,6 +720,8 @@ def world_from_line(line, summary=None):
     w.meta_faults = summary.get("meta_faults", []) or []
     w.sched_fs = summary.get("sched_fs")
     w.tag = summary.get("tag", "replay")
+    if w.tag == "more than 100000 pieces":
+        w.time_limit = 600
     return w
 
 # ---------------------------------------------------------------- special-purpose generators
@@ -1418,6 +1424,7 @@ def gen_world_hundred_thousand_pieces(rng):
     w.threads = rng.choice([1, 3])
     w.expect_lines = n
     w.tag = "more than 100000 pieces"
+    w.time_limit = 600
     return w
 
 
